@@ -5,6 +5,7 @@ mod syncmsg;
 mod c05;
 mod c08;
 mod c12;
+mod c14;
 mod storeops;
 mod storeprops;
 mod common;
@@ -79,6 +80,7 @@ fn main() {
         "C13" => run(storeprops::StoreProp::new("C13"), &args, 2500, 40000),
         "C16" => run(storeprops::StoreProp::new("C16"), &args, 1500, 20000),
         "C17" => run(storeprops::StoreProp::new("C17"), &args, 2000, 30000),
+        "C14" => run(c14::C14::new(), &args, 500, 8000),
         "C15" => run(storeprops::StoreProp::new("C15"), &args, 2000, 30000),
         "C18" => run(storeprops::StoreProp::new("C18"), &args, 300, 4000),
         "C07" => run(storeprops::StoreProp::new("C07"), &args, 2000, 30000),
